@@ -8,6 +8,8 @@ from .. import cjit, corpus, kernels, lean, pipeline
 THEOREMS = [
     "Ffcx.LNodes.pure_accumulates", "Ffcx.LNodes.inputs_unchanged", "Ffcx.LNodes.call_shape",
     "Ffcx.LNodes.call_adds", "Ffcx.LNodes.pure_history", "Ffcx.LNodes.incrSum_perm",
+    "Ffcx.LNodes.pure_interleave", "Ffcx.LNodes.disjoint_of_disjointB", "Ffcx.LNodes.interleave_seq",
+    "Ffcx.LNodes.exec_commute",
 ]
 
 
@@ -38,6 +40,10 @@ def certificates(chk, d, ents):
                 chk.programs += 1
                 chk.case("certificate", f"{c.name}:{tag}",
                          sample={"kernel": c.name, "variant": tag, "reply": r[:3]} if len(chk.samples) < 3 else None)
+                t = d.ask(f"(threads {c.ast_sexp})")
+                if t[:2] != ["ok", "true"]:
+                    chk.disagree("thread-disjointness certificate (pure_interleave) fails on a generated kernel",
+                                 {"kernel": c.name, "variant": tag, "reply": t})
                 if r[0] != "ok" or r[1] != "true":
                     # the certificate failed: the theorems no longer apply to this kernel. Search for a
                     # concrete failing input on the real kernel happens in c_search(); record the broken tie.
